@@ -30,7 +30,40 @@ PROVED = [
     'red_preserves_gs, swap_preserves_gs [P, exact arithmetic]: RED and SWAP keep "bstar, mu, b are the Gram-Schmidt data of rows '
     '0..kmax" (characterising relations b_i = b*_i + sum mu_ij b*_j, orthogonality, B_i = |b*_i|^2); SWAP under new |b*_k|^2 != 0',
     'lll_reduced_partial [C, exact arithmetic]: if the flag is_lll_reduced the model evaluates on its own output is true then the '
-    'output is LLL-reduced with parameter 3/4 (exact Gram-Schmidt by the textbook formulas)',
+    'output is LLL-reduced with parameter 3/4 (exact Gram-Schmidt by the textbook formulas); superseded by lll_reduced_exact',
+    'step2_preserves_gs [P, exact arithmetic]: step 2 (incremental Gram-Schmidt of a row reached for the first time, k = kmax + 1) '
+    'establishes the Gram-Schmidt relation for rows 0..k given it for rows 0..kmax with non-zero |b*_j|^2',
+    'main_loop_inv [P, exact arithmetic]: the invariant "shapes; bstar, mu, b are the Gram-Schmidt data of rows 0..kmax; |b*_i|^2 > 0; '
+    'rows linearly independent; rows 0..k-1 size-reduced and Lovasz(3/4)" is kept by step 2, RED(k,k-1) / Lovasz test / SWAP(k-1) / '
+    'k := max(1,k-1), the descending loop RED(k,l) for l = k-2..0 and k+1, in the order of the code; a returning run ends with '
+    'kmax = n-1 and all n rows reduced (b*_k != 0 and the SWAP precondition are derived from linear independence)',
+    'lll_reduced_exact, lll_reduced_exact_prop, lll_exact_checked_flag [P, exact arithmetic]: for EVERY square rational basis with '
+    'linearly independent rows (rows_independent: no non-trivial rational combination of the rows vanishes; right_inverse_independent: '
+    'implied by a right inverse) and EVERY fuel: if lll returns (B\', H) then is_lll_reduced B\' = true, i.e. the Gram-Schmidt vectors '
+    'of B\' (textbook formulas) are non-zero, |mu_ij| <= 1/2 for j < i and (3/4 - mu_{i+1,i}^2)|b*_i|^2 <= |b*_{i+1}|^2: the flag of '
+    'lll_reduced_partial is always true (partial correctness: termination not included)',
+    'lll_exact_no_panic [P, exact arithmetic]: on a square matrix with >= 2 rows (singular or not) the run never panics (Done or OutOfFuel)',
+    'lll_exact_correct [P, exact arithmetic]: the LLL clause in one statement (partial correctness): non-singular square B, >= 2 rows: '
+    'no panic, and a returned (B\', H) has H unimodular, B\' = H*B, B\' LLL-reduced with 3/4',
+    'swap_potential, red_potential [P, exact arithmetic]: one step of the termination argument: under the loop invariant, after a failed '
+    'Lovasz test SWAP(k-1) multiplies d_{k-1} = |b*_0|^2...|b*_{k-1}|^2 by a factor < 3/4, leaves the other d_i unchanged and all positive; '
+    'RED changes none',
+    'gs_prod_is_int [P]: for Gram-Schmidt data of rows 0..i of an integer matrix, |b*_0|^2...|b*_i|^2 is an integer (Gram determinant; '
+    'MathComp determinants); swap_gd [P, exact arithmetic]: in terms of the current basis only (all rows), a SWAP after a failed Lovasz '
+    'test strictly decreases the (k-1)-th leading Gram determinant and leaves the others unchanged',
+    'lll_exact_terminates, lll_exact_total [P, exact arithmetic]: TERMINATION for every square rational basis with >= 2 linearly '
+    'independent rows: there is a fuel0 such that for every fuel >= fuel0 the run returns (B\', H), with H unimodular, B\' = H*B and B\' '
+    'LLL-reduced with 3/4 (potential: prod_i c^(2(i+1)) d_i with c a common denominator is a positive integer, unchanged by step 2 and '
+    'RED, strictly smaller after each SWAP)',
+    'cholesky_find_entries [P, exact arithmetic]: for every square Q, Cholesky::find returns q with q_aa = A^(a)_aa, '
+    'q_ab = A^(a)_ab / A^(a)_aa (a < b), 0 below the diagonal, A^(i) the matrices of the symmetric elimination (Schur complements)',
+    'posdef_pivots_pos, pivots_pos_posdef [P]: a symmetric rational matrix is positive definite (x^T Q x > 0 for every rational x != 0) '
+    'iff all pivots A^(i)_ii are positive',
+    'cholesky_find_spec, cholesky_find_spec_pivots [P, exact arithmetic]: for a symmetric positive-definite rational Q, Cholesky::find '
+    'returns q with positive diagonal and find_value(q, x) = x^T Q x for every integer vector x of the right length',
+    'short_vectors_gram_spec [P, exact arithmetic]: for a symmetric positive-definite Gram matrix Q and bound c, the enumeration on '
+    'find(Q) returns without repetition pairs (v, y), y a non-zero integer vector, v = y^T Q y <= c, and exactly one of y, -y for every '
+    'non-zero integer y with y^T Q y <= c',
     'short_vectors_sound [P, exact arithmetic]: every returned (v, x): x non-zero of the right length, v = find_value(x), v <= c',
     'short_vectors_complete, short_vectors_spec [P, exact arithmetic]: for a decomposition with positive diagonal and c >= 0 the '
     'enumeration returns, without repetition, exactly the x with value <= c whose highest non-zero coordinate is negative; hence '
@@ -42,20 +75,25 @@ NOT_PROVED = [
     'instance of the same generic code; for the binary64 instance only lll_H_unimodular/lll_small_panics hold by proof. Reducedness of '
     'the code\'s output, B\' = H*B, completeness of the floating-point enumeration and the unit count are checked by the exact oracles '
     'on every generated case (always_oracle=True), not proved',
-    'LLL termination (fuel sufficiency) and reducedness at exit for all inputs (needs step 2 establishes / loop keeps the Gram-Schmidt '
-    'relation + the exit conditions; only RED/SWAP preservation is proved)',
-    'Cholesky::find: that find_value(find(Q), x) = x^T Q x and that the diagonal is positive for positive-definite Q (oracle only)',
+    'that the PARTICULAR fuel lll_fuel(n, bits) used by lll_exact / the extracted model suffices: termination is proved in the form '
+    '"some fuel suffices" (lll_exact_terminates); a quantitative bound would need Hadamard-type bounds of the initial Gram determinants '
+    'from the entry size and the log_{4/3} arithmetic (for rational inputs with many distinct denominators the formula is not '
+    'obviously sufficient); in the correspondence runs OutOfFuel never occurred',
     'find_muk / numerical_roots / embeddings (Newton iteration from sin/cos starts, complex arithmetic): not modelled, oracle only',
 ]
 CLAIM = dict(
     technique='Coq proofs about a Gallina model written once over a record of arithmetic operations (theorems for every arithmetic, '
               'and for the exact-rational instance) + bit-exact correspondence of the binary64 instance (PrimFloat, vm_compute inside '
               'coqc) with the implementation + exact rational oracles on every case',
-    text='H is unimodular for every arithmetic (so also for the code\'s floating point); in exact arithmetic B\' = H*B, RED/SWAP keep the '
-         'Gram-Schmidt data exact, the short-vector enumeration is sound, complete and unique up to sign. The model is tied to /repo by '
+    text='H is unimodular for every arithmetic (so also for the code\'s floating point); in exact arithmetic: B\' = H*B; for every square '
+         'basis with linearly independent rows the run terminates (from some fuel on) and every returning run yields an LLL-reduced B\' '
+         '(|mu_ij| <= 1/2, Lovasz with 3/4; exact Gram-Schmidt by the textbook formulas; no model-computed flag any more); for a symmetric positive-definite Gram matrix Q, '
+         'Cholesky::find returns a decomposition with positive diagonal whose value at every integer x is x^T Q x, and the short-vector '
+         'enumeration on it returns exactly one of x, -x, with its value, for every non-zero integer x with x^T Q x <= c. The model is tied to /repo by '
          'comparing (B\', H), the Cholesky decomposition, values and short-vector lists of impl_svc with the PrimFloat instance bit for bit '
          '(integer-valued inputs), and with the extracted exact instance where both must agree.',
-    note='Floating-point error, termination, reducedness at exit for all inputs, Cholesky::find and find_muk are not proved: reducedness '
+    note='Floating-point error, sufficiency of the specific fuel formula lll_fuel (termination of the exact LLL is proved for SOME fuel) and '
+         'find_muk are not proved: for the binary64 code reducedness '
          '(exact Gram-Schmidt of H*B, tolerance 1e-6), brute-force short vectors and known unit counts are oracle checks on the explored '
          'inputs. The exact instance idealises f64 as Q and i64 as Z (no NaN, no saturation); x/0 = 0 there.',
     ref='DESIGN.md section 4, C20')
